@@ -32,7 +32,7 @@ LEVEL_TEXT = (
     "answer lost/late/twice/retransmitted/for another property, instance, object type or service, indication interleaved, error answer, "
     "server disconnect, TCP reset) of length <= 3 (quick) / <= 4 (thorough) is run against 4 sequential property calls (the third repeats the "
     "key of the first); closes (user disconnect, server DisconnectRequest, TCP reset) are injected at every distinct wire instant of the baseline "
-    "and between them for scripts of length <= 1 / <= 2; 2-4 concurrent callers for scripts <= 1 / <= 2; counter wrap-around 254->1; configuration dimension: indication callback "
+    "and between them for scripts of length <= 1 / <= 2; 2-4 concurrent callers for scripts <= 1 / <= 2; the application cancelling the task of a call at every wire instant (scripts <= 1 / <= 2, also one of 3 concurrent callers) with the later calls going on over the same connection; counter wrap-around 254->1; configuration dimension: indication callback "
     "registered / not registered (the class default) / raising, UDP route-back, for scripts <= 2 / <= 3 with unsolicited indications for the "
     "property being read. "
     "Bounded exhaustive enumeration of fault sequences, hence fault_enumeration."
@@ -86,6 +86,8 @@ def run_case(ctx, case, judge=True):
     indications = []
     calls = []  # dicts: idx, start, end, outcome, value/exception
     close_rec = {}
+    cancel = case.get("cancel")  # None | {"at": t, "worker": k}
+    cancel_rec = {}
     extra_ind = case.get("indications", ())  # times at which the server sends unsolicited indications
 
     cb_mode = case.get("callback", "record")  # "record" | "none" (the default of the class) | "raises"
@@ -124,6 +126,17 @@ def run_case(ctx, case, judge=True):
             rec["counter_after"] = conn.sequence_number
             rec["channel_after"] = conn.communication_channel
 
+    async def canceller(running):
+        """The application cancels the task of the call in progress (or of worker `worker`) at `at`; the connection stays."""
+        await asyncio.sleep(max(0.0, cancel["at"] - (loop.time() - 1000.0)))
+        idx = cancel.get("worker")
+        if idx is None:
+            idx = next(iter(running), None)
+        task = running.get(idx)
+        if task is not None and not task.done():
+            cancel_rec.update(time=round(loop.time() - 1000.0, 6), idx=idx)
+            task.cancel()
+
     async def closer(conn):
         await asyncio.sleep(max(0.0, close["at"] - (loop.time() - 1000.0)))
         close_rec["time"] = round(loop.time() - 1000.0, 6)
@@ -149,12 +162,19 @@ def run_case(ctx, case, judge=True):
         tasks = []
         if close is not None:
             tasks.append(asyncio.create_task(closer(conn)))
+        running = {}
+        if cancel is not None:
+            tasks.append(asyncio.create_task(canceller(running)))
         if concurrent:
-            workers = [asyncio.create_task(one_call(conn, i)) for i in range(concurrent)]
-            await asyncio.gather(*workers)
+            workers = [asyncio.ensure_future(one_call(conn, i)) for i in range(concurrent)]
+            running.update(enumerate(workers))
+            await asyncio.wait(workers)
         else:
             for idx in range(ncalls):
-                await one_call(conn, idx)
+                task = asyncio.ensure_future(one_call(conn, idx))
+                running.clear()
+                running[idx] = task
+                await asyncio.wait([task])
         for t in tasks:
             await t
         # let late frames arrive, then close
@@ -178,7 +198,7 @@ def run_case(ctx, case, judge=True):
     obs["send_after_close"] = [e for e in loop.events if e[0] == "send_after_close"]
     loop.finish()
     asyncio.set_event_loop(None)
-    obs.update(server=server, calls=calls, indications=indications, close=close_rec, wire=wire)
+    obs.update(server=server, calls=calls, indications=indications, close=close_rec, wire=wire, cancel=cancel_rec)
     if judge:
         _judge(ctx, obs)
     return obs
@@ -193,6 +213,7 @@ def _witness(obs, **more):
         "client_requests_on_wire": [(r["time"], r["counter"], r.get("fate"), r.get("symbol")) for r in srv.requests][:30],
         "frames_delivered": [(d["time"], d["kind"], d.get("variant"), d["key"], d["data"].hex()) for d in srv.delivered][:30],
         "close": obs["close"],
+        "cancelled": obs.get("cancel"),
     }
     w.update(more)
     return w
@@ -223,6 +244,18 @@ def _judge(ctx, obs):
         kind, obj, inst, pid, _start = CALLS[c["idx"] % len(CALLS)]
         key = (obj, inst, pid)
         want = M_PROP_READ_CON if kind == "read" else M_PROP_WRITE_CON
+        if c.get("outcome") == "cancelled":
+            if obs["cancel"].get("idx") == c["idx"]:
+                ctx.count("calls_cancelled_by_the_application")
+                ctx.count("cancelled_during_" + _phase(obs, c, obs["cancel"]["time"]))
+            else:
+                ctx.violation(f"{tag}-call-raises-CancelledError-without-being-cancelled", _witness(obs, call=c["idx"]),
+                              f"call {c['idx']} ended with asyncio.CancelledError although only call {obs['cancel'].get('idx')} was cancelled")
+            continue
+        if obs["cancel"] and c["start"] >= obs["cancel"]["time"]:
+            ctx.count("calls_after_a_cancellation")
+            if c.get("outcome") == "returned":
+                ctx.count("calls_after_a_cancellation_returned")
         if c.get("outcome") != "returned":
             if c.get("outcome") not in ("CommunicationError",):
                 ctx.count("call_raised_other_than_CommunicationError")
@@ -366,6 +399,15 @@ def _judge(ctx, obs):
         if id(r) in acc_iter:
             exp = (exp + 1) & 0xFF
     final = obs.get("final") or {}
+    if obs["cancel"]:
+        # a call cancelled while its request waits for the acknowledgement leaves the counter where it was although the server may
+        # have accepted the request - the client cannot know; the counter rule is not judged for the rest of such a case
+        cc = next((c for c in calls if c["idx"] == obs["cancel"]["idx"]), None)
+        mine = [a for a in srv.accepted if cc is not None and _call_of_request(a["raw"]) == cc["idx"] % len(CALLS)]
+        if cc is not None and not tcp and mine and cc.get("counter_after") == mine[0]["counter"]:
+            ctx.count("counter_rule_suspended_after_cancel_in_ack_wait")
+            mismatch = None
+            final = {}
     if mismatch is None and final.get("channel") is not None and srv.open and final.get("counter") != srv.expected:
         mismatch = ({"time": None, "counter": final.get("counter"), "raw": b""}, srv.expected)
     if mismatch is not None:
@@ -396,6 +438,8 @@ def _judge(ctx, obs):
         for c in calls:
             if c.get("end", 1e18) < tc - 1e-9:
                 continue  # finished before the close
+            if c.get("outcome") == "cancelled" and obs["cancel"].get("idx") == c["idx"]:
+                continue  # cancelled by the application
             pending = c["start"] <= tc
             ref = tc if pending else c["start"]
             ctx.count("calls_pending_at_close" if pending else "calls_after_close")
@@ -429,7 +473,7 @@ def _judge(ctx, obs):
     if obs["loop_exceptions"]:
         ctx.count("loop_exception_handler_calls", len(obs["loop_exceptions"]))
     hist = "".join(srv.symbols_used)
-    ctx.distinct((tag, hist, tuple(c.get("outcome") for c in calls), case.get("concurrent", 0), case.get("callback", "record"), bool(case.get("route_back")),
+    ctx.distinct((tag, hist, tuple(c.get("outcome") for c in calls), case.get("concurrent", 0), case.get("callback", "record"), bool(case.get("route_back")), (obs["cancel"].get("idx"), _phase_any(obs, obs["cancel"].get("time"))) if obs["cancel"] else None,
                   (case["close"]["kind"], _phase_any(obs, close_t)) if case.get("close") else None))
 
 
@@ -525,7 +569,9 @@ def run(ctx):
     ctx.require("read_returned_matching_answer", "write_returned_matching_answer", "indication_callback_calls",
                 "repeated_requests", "four_transmissions", "prompt_failures", "calls_pending_at_close", "counter_checks",
                 "concurrent_requests_serialised", "counter_wraparound_seen", "cases_without_indication_callback",
-                "indications_delivered_without_callback", "indication_callback_raised", "route_back_cases")
+                "indications_delivered_without_callback", "indication_callback_raised", "route_back_cases",
+                "calls_cancelled_by_the_application", "calls_after_a_cancellation_returned", "cancelled_during_ack-wait",
+                "cancelled_during_answer-wait", "cancelled_during_queued")
     n = 0
     max_len = ctx.scale(3, 4)
     close_len = ctx.scale(1, 2)
@@ -572,6 +618,25 @@ def run(ctx):
                     closes += 1
                     run_case(ctx, dict(case, close={"kind": kind, "at": at}))
     ctx.count("close_injection_cases", closes)
+    # the application cancels the task of a call at every step; the connection stays open and the later calls go on
+    cancels = 0
+    for transport, alphabet in (("udp", UDP_SYMBOLS), ("tcp", TCP_SYMBOLS)):
+        for s in _scripts(alphabet, ctx.scale(1, 2)):
+            for conc in (0, 3):
+                if conc and len(s) > 1:
+                    continue
+                n += 1
+                if not ctx.mine(n):
+                    continue
+                base = {"transport": transport, "script": s}
+                if conc:
+                    base["concurrent"] = conc
+                obs = run_case(ctx, base, judge=False)
+                for at in _close_steps(obs):
+                    for worker in ((0, 1) if conc else (None,)):
+                        cancels += 1
+                        run_case(ctx, dict(base, cancel={"at": at, "worker": worker}))
+    ctx.count("cancel_injection_cases", cancels)
     ctx.sample({"udp_alphabet": {s: SYMBOL_TEXT[s] for s in UDP_SYMBOLS}})
     ctx.sample({"workload": CALLS})
     ctx.exhaustive = True
